@@ -88,7 +88,16 @@ pub fn gen_valid(rng: &mut Rng, tier: Tier) -> Option<ValidStream> {
     Some(ValidStream {
         file,
         hdr: h,
-        options: sut::opts(us, if rng.chance(1, 4) { Some(*rng.pick(&[1usize << 20, 1 << 31, usize::MAX])) } else { None }, true),
+        // a limit that is just sufficient (the dictionary size itself) must be transparent
+        options: sut::opts(
+            us,
+            match rng.below(6) {
+                0 => Some(*rng.pick(&[1usize << 20, 1 << 31, usize::MAX])),
+                1 => Some(dict as usize + *rng.pick(&[0usize, 1, 100, 271, 272])),
+                _ => None,
+            },
+            true,
+        ),
         full,
         table,
         desc: format!(
